@@ -61,6 +61,9 @@ CHECKS = {
    text="Every string over {a,b,$,/,+,#} up to length 6 (quick) / 8 (thorough) is validated, every (valid filter, topic<=6/7) pair is matched, and every ordered pair of valid filters up to length 5/6 is tested for covering, against a 40-line reference transcribed from MQTT 4.7; exhaustive within those bounds.",
    note="Trusts the reference in harness/src/c18.rs; alphabet of 6 ASCII symbols plus two multi-byte characters; hook verif::topic_is_valid exposes the dispatcher's validator.",
    design="4/C18"),
+ "C19": dict(engine="simnet", technique=A_TECH + "; fragmentations and limit probes are enumerated as explorer choices",
+   text="Gate: v3, v5 and combined server x handshake service {accept, refuse, error, slow} x every first packet (CONNECT with protocol name MQTT / MQIsdp / MQTX, level 3/4/5/6, reserved flag set; every other packet type in v3 and v5 encoding; reserved types 0 and 15) followed by up to 2 (quick) / 3 (thorough) packets (PUBLISH, SUBSCRIBE) and the handshake completion in every order with 2 / 3 injections while runnable. Fragmentation: combined server, CONNECT level 4 and 5 followed by PUBLISH + SUBSCRIBE + PINGREQ, the first 16 (quick) / 19 (thorough) bytes in all 2^15 / 2^18 fragmentations, with 0 / 5 / 9 / all CONNECT bytes already buffered when the server starts. Limits: 27 configurations of configured vs CONNECT-requested vs handshake-overridden values (v5 server: max QoS, max packet size smaller and larger, receive maximum, topic alias max, max send, keep-alive smaller / larger / client 0, all at once with pairwise distinct values, x peer Receive Maximum absent / below / above; v3 server; v5 client with CONNACK receive maximum / max packet size / server keep-alive; v3 client), each probed after the handshake: CONNACK contents, packet at half / 1.5x the size limit, QoS at / above, alias at / above, receive maximum at / above, credit(), keep-alive expiry time on the virtual clock, client ping period, outbound packet over the peer's size limit. Oracle: no handler record before the acceptance record; invalid first packet, refusal or error end the connection with at most the refusing CONNACK; valid CONNECT reaches the service of its level; every follow-up handled once, in order, intact; each limit in force equals the negotiated value.",
+   note=A_NOTE + " Known finding C19-2 (v5 server does not announce the 30 s default it imposes on a client that asked for keep-alive 0).", design="4/C19"),
  "C20": dict(engine="simnet", technique=A_TECH + "; time is the virtual clock of the vendored ntex-util, moved only by the explorer's tick event",
    text="Virtual clock on a half-second grid (each tick delivered as five 100 ms sub-steps), horizon = timeout + 5 s: v3/v5 server with keep-alive 1, 2, 3 s (client value), server override smaller / larger / with client value 0, and client value 0 without override; background traffic absent or one complete packet every (period - 0.5 s) delivered whole, in two writes, or split across two slots; on top every placement of up to 2 (quick) / 4 (thorough) events out of {traffic stops, extra packet, partial frame, rest of it, a handler becomes busy / completes (v3 max_receive 1: reading paused)}; frame read rate (1 s, 3 s overall, > 4 B per period) with every placement of up to 3 / 5 fragment deliveries of 1, 3, 6 or the remaining bytes; connect timeout 2 s with CONNECT in up to three fragments; client keep-alive 0..3 s idle, with a busy handler, with a streamed publish open across a ping. Oracle: keep-alive timeout only after a gap >= the period (never for live peers, also after a reading pause) and with DISCONNECT 0x8D on v5; an idle or stalled connection is ended within the timeout plus tick slack; read timeout never earlier than configured nor for a frame above the rate, always for a stalled one; CONNECT in time accepted, late one dropped, no handler before acceptance; client writes PINGREQ at least once per keep-alive period.",
    note=A_NOTE + " The io timer of ntex-io counts one-second ticks; deadlines are judged with (timeout+1) ticks x 1.3 + 0.5 s on the late side and no slack on the early side. Keep-alive 0 without override: the library's documented 30 s default applies, only 'live peers survive' is demanded. Known findings C20-2/3.", design="4/C20"),
